@@ -82,3 +82,593 @@ class value_lookup_table:
             shapes={"lookup_table": ListOf(Int)},
         )
     }
+
+
+# =============================================================================================================
+# String model for the colour descriptions (used by the contracts below).
+#
+# A str is modelled as CStr(n, at): its length n (int or symbolic Int) and the code point at(j) of character j.
+# The model is a ModelObj, so every operation the real code performs on it is dispatched here and either has a
+# definite meaning below or is Unsupported (an honest failure).  Modelled operations and the CPython facts they
+# encode (each cross-checked against CPython by the static check `cstr-models-agree-with-cpython`):
+#   len(s), s[i] (IndexError outside -n..n-1), s[a:b:k] for constant k >= 1 (slice.indices clamping), s == t,
+#   s in <container of constants>, s.startswith(<constant>), c in "<constant>" for a one-character c, s + t,
+#   iteration (one-character strs in order),
+#   f"{v:d}" / f"{v:x}" / f"{v:0Wx}" for an int v >= 0 (positional digits, most significant first, lower case,
+#     zero-padded to W), f"{s}" for a str,
+#   int(s, 10) / int(s, 16): for a non-empty s of ASCII digits of the base — the positional value; for base 16
+#     also "0x"/"0X" followed by >= 1 hex digits — the value of those digits; for EVERY other s: either ValueError
+#     or some unspecified int (CPython also accepts signs, blanks, underscores and non-ASCII digits; the model
+#     does not say which strings those are, so nothing can be proved from them — a sound over-approximation).
+# What is trusted: exactly these statements about CPython's str/int/format.
+# =============================================================================================================
+import z3  # noqa: E402
+
+from pyvc import source as SRC  # noqa: E402
+from pyvc.builtins_model import norm_index  # noqa: E402
+from pyvc.engine import PyRaise, SExc  # noqa: E402
+from pyvc.seqs import ModelObj  # noqa: E402
+from pyvc.shapes import Shape  # noqa: E402
+from pyvc.values import SInt, mk_int  # noqa: E402
+
+MAX_CODE = 0x110000
+
+
+def _isint(x):
+    return isinstance(x, int) and not isinstance(x, bool)
+
+
+def _simp(x):
+    """Simplify a symbolic int to a plain int where z3 can (lengths of slices of strings of known length)."""
+    if isinstance(x, SInt):
+        e = z3.simplify(x.e)
+        if z3.is_int_value(e):
+            return e.as_long()
+        return mk_int(e)
+    return x
+
+
+def _pick(items, j):
+    """items[j] for a concrete list and an int or symbolic j (an ite chain; no fork)."""
+    if _isint(j):
+        return items[j] if 0 <= j < len(items) else 0  # outside the str: an unused placeholder
+    r = items[-1]
+    for k in range(len(items) - 2, -1, -1):
+        r = ite(j == k, items[k], r)
+    return r
+
+
+class CStr(ModelObj):
+    def __init__(self, n, at):
+        self.n = _simp(n)
+        self.at = at
+
+    @staticmethod
+    def of(s):
+        if isinstance(s, CStr):
+            return s
+        if isinstance(s, str):
+            codes = [ord(ch) for ch in s]
+            return CStr.codes(codes)
+        raise Unsupported(f"not a str: {s!r}")
+
+    @staticmethod
+    def codes(codes):
+        codes = list(codes)
+        return CStr(len(codes), (lambda j: _pick(codes, j)) if codes else (lambda j: 0))
+
+    # ---- dispatch from the interpreter
+    def py_len(self, st):
+        return self.n
+
+    def py_truth(self, st):
+        return self.n > 0
+
+    def py_getitem(self, ip, st, idx):
+        n = self.n
+        if isinstance(idx, Q.SSlice):
+            start, stop, step = Q.slice_indices(idx, n)
+            if not (_isint(step) and step >= 1):
+                raise Unsupported("slice of a modelled str with a non-constant or negative step")
+            start, stop = _simp(start), _simp(stop)
+            if step == 1:
+                return CStr(imax(stop - start, 0), lambda j: self.at(start + j))
+            return CStr(imax((stop - start + step - 1) // step, 0), lambda j: self.at(start + j * step))
+        k = _simp(norm_index(st, idx, n, "string index out of range"))
+        return CStr(1, lambda j: self.at(k))
+
+    def py_iter(self, ip, st):
+        if _isint(self.n):
+            return tuple(CStr(1, (lambda j, i=i: self.at(i))) for i in range(self.n))
+        return Q.SSeq(self.n, lambda i: CStr(1, lambda j: self.at(i)), None, None, "chars")
+
+    def py_in_str(self, ip, st, container):
+        """`c in "constant"` for a one-character c: c is one of the constant's characters."""
+        if self.n != 1 if _isint(self.n) else True:
+            raise Unsupported("substring test of a modelled str that is not a single character")
+        c = self.at(0)
+        return either(*[c == k for k in sorted({ord(ch) for ch in container})])
+
+    def py_call(self, ip, st, name, args, kwargs):
+        if name == "startswith" and len(args) == 1 and isinstance(args[0], str) and not kwargs:
+            return cs_startswith(self, args[0])
+        h = getattr(ip.task.c, "str_method", None)
+        if h is not None:
+            r = h(ip, st, self, name, args, kwargs)
+            if r is not NotImplemented:
+                return r
+        raise Unsupported(f"str.{name} on a modelled str")
+
+    def py_binop(self, ip, st, op, other, reflected):
+        import ast as _ast
+
+        if isinstance(op, _ast.Add) and isinstance(other, (str, CStr)):
+            a, b = (other, self) if reflected else (self, other)
+            return cs_concat(CStr.of(a), CStr.of(b))
+        return NotImplemented
+
+    def py_int_base(self, ip, st, base):
+        return cs_int(st, self, base)
+
+    def __eq__(self, o):
+        if isinstance(o, (str, CStr)):
+            return cs_eq(self, o)
+        return False
+
+    def __ne__(self, o):
+        return neg(self.__eq__(o))
+
+    __hash__ = object.__hash__
+
+    def __repr__(self):
+        return f"CStr(len={self.n!r})"
+
+
+def cs_len(s):
+    return len(s) if isinstance(s, str) else s.n
+
+
+def cs_at(s, j):
+    return ord(s[j]) if isinstance(s, str) else s.at(j)
+
+
+def cs_startswith(s, prefix):
+    return both(cs_len(s) >= len(prefix), *[cs_at(s, i) == ord(ch) for i, ch in enumerate(prefix)])
+
+
+def cs_eq(a, b, bound=None):
+    """a == b for strs of which at least one has a known length (or both at most `bound` long)."""
+    if isinstance(a, str) and isinstance(b, str):
+        return a == b
+    na, nb = cs_len(a), cs_len(b)
+    if _isint(na) or _isint(nb):
+        k = na if _isint(na) else nb
+        return both(na == nb, *[cs_at(a, i) == cs_at(b, i) for i in range(k)])
+    if bound is None:
+        raise Unsupported("equality of two modelled strs of unknown length")
+    return both(na == nb, na <= bound, *[implies(i < na, cs_at(a, i) == cs_at(b, i)) for i in range(bound)])
+
+
+def cs_concat(a, b):
+    na, nb = a.n, b.n
+    if _isint(na) and _isint(nb):
+        return CStr.codes([a.at(i) for i in range(na)] + [b.at(i) for i in range(nb)])
+    return CStr(na + nb, lambda j: ite(j < na, a.at(j), b.at(j - na)))
+
+
+def cs_concrete_len(st, s, maxn=8):
+    """The length of s as a plain int, by a case split over 0..maxn (None when it may be longer)."""
+    if _isint(s.n):
+        return s.n
+    k = st.choose([s.n == j for j in range(maxn + 1)] + [s.n > maxn])
+    return k if k <= maxn else None
+
+
+def is_dec(c):
+    return both(48 <= c, c <= 57)
+
+
+def is_hex(c):
+    return either(both(48 <= c, c <= 57), both(97 <= c, c <= 102), both(65 <= c, c <= 70))
+
+
+def digit_val(c, base):
+    """Value of an ASCII digit character of the base (meaningful only where is_dec / is_hex holds)."""
+    if base == 10:
+        return c - 48
+    return ite(c <= 57, c - 48, ite(c >= 97, c - 87, c - 55))
+
+
+def is_digit(c, base):
+    return is_dec(c) if base == 10 else is_hex(c)
+
+
+def digits_value(codes, base):
+    v = 0
+    for c in codes:
+        v = v * base + digit_val(c, base)
+    return v
+
+
+def cs_int(st, s, base):
+    """Model of int(s, base), base 10 or 16 (see the header of this section)."""
+    if base not in (10, 16):
+        raise Unsupported(f"int(str, {base}) is not modelled")
+    n = cs_concrete_len(st, s)
+    if n is not None:
+        codes = [s.at(i) for i in range(n)]
+        canonical = both(n >= 1, *[is_digit(c, base) for c in codes])
+        prefixed = False
+        if base == 16 and n >= 3:
+            prefixed = both(codes[0] == 48, either(codes[1] == 120, codes[1] == 88), *[is_hex(c) for c in codes[2:]])
+        w = st.choose([canonical, both(neg(canonical), prefixed), both(neg(canonical), neg(prefixed))])
+        if w == 0:
+            return digits_value(codes, base)
+        if w == 1:
+            return digits_value(codes[2:], base)
+    if st.fork(2) == 0:
+        raise PyRaise(SExc(ValueError, ("invalid literal for int()",), site="builtin"))
+    return st.fresh_int("lenient_int")
+
+
+def fmt_int(st, v, spec):
+    """Model of format(v, spec) for an int v >= 0 and spec 'd', 'x' or '0Wx' / '0Wd' (W a constant width)."""
+    kind = spec[-1:] if spec else "d"
+    if kind not in ("d", "x") or (spec[:-1] and not (spec[0] == "0" and spec[1:-1].isdigit())):
+        return NotImplemented
+    width = int(spec[1:-1]) if spec[:-1] else 0
+    base = 10 if kind == "d" else 16
+    if _isint(v):
+        return CStr.of(format(v, spec))
+    if not st.branch(v >= 0):
+        raise Unsupported("format of a possibly negative modelled int")
+    limits = [base**k for k in range(1, 9)]
+    k = st.choose([v < limits[0]] + [both(limits[i - 1] <= v, v < limits[i]) for i in range(1, 8)] + [v >= limits[7]])
+    if k == 8:
+        raise Unsupported("format of a modelled int with more than 8 digits")
+    nd = max(k + 1, width)
+    digs = [(v // base ** (nd - 1 - j)) % base for j in range(nd)]
+    return CStr.codes([digit_char(d, base) for d in digs])
+
+
+def digit_char(d, base=16):
+    """The (lower-case) digit character of the value 0 <= d < base."""
+    return 48 + d if base == 10 else ite(d < 10, 48 + d, 87 + d)
+
+
+def cstr_fstring(ip, st, pieces):
+    out = CStr.of("")
+    for p in pieces:
+        if isinstance(p, str):
+            part = CStr.of(p)
+        else:
+            x, spec, conv = p
+            x = st.force(x)
+            if conv != -1:
+                return NotImplemented
+            if isinstance(x, (str, CStr)) and spec == "":
+                part = CStr.of(x)
+            elif (isinstance(x, SInt) or _isint(x)) and not isinstance(x, (bool, SBool)):
+                part = fmt_int(st, x, spec)
+                if part is NotImplemented:
+                    return NotImplemented
+            else:
+                return NotImplemented
+        out = cs_concat(out, part)
+    return out
+
+
+class StrShape(Shape):
+    """A fresh modelled str: symbolic length (0 <= n <= max_len when given), every character a code point."""
+
+    def __init__(self, max_len=None):
+        self.max_len = max_len
+
+    def fresh(self, st, hint):
+        n = st.fresh_int(hint + "_len")
+        st.assume(n >= 0)
+        if self.max_len is not None:
+            st.assume(n <= self.max_len)
+        f = z3.Function(st.fresh_name(hint + "$code"), z3.IntSort(), z3.IntSort())
+
+        def at(j):
+            e = f(V._z(j))
+            cur().assume(z3.And(e >= 0, e < MAX_CODE))
+            return mk_int(e)
+
+        return CStr(n, at)
+
+    def __repr__(self):
+        return f"Str(max_len={self.max_len})"
+
+
+Str = StrShape
+
+
+# ---------------------------------------------------------------------------------------------------------------
+# Module constants: the lookup / step / RGB tables are read from the REAL module (the one pyvc analyses; a mutated
+# scratch copy when tools/mut.py runs) and enter the VCs as one uninterpreted function per table and component
+# with its ground defining equations — `T[i]` with a symbolic i is then a term, not a 256-way fork.
+# ---------------------------------------------------------------------------------------------------------------
+INT_TABLES = (
+    "_CUBE_256_LOOKUP_16", "_CUBE_88_LOOKUP_16", "_GRAY_256_LOOKUP", "_GRAY_88_LOOKUP", "_GRAY_256_LOOKUP_101",
+    "_GRAY_88_LOOKUP_101", "_CUBE_STEPS_256_16", "_CUBE_STEPS_88_16", "_GRAY_STEPS_256_101", "_GRAY_STEPS_88_101",
+    "_CUBE_STEPS_256", "_CUBE_STEPS_88", "_GRAY_STEPS_256", "_GRAY_STEPS_88",
+)
+RGB_TABLES = ("_COLOR_VALUES_256", "_COLOR_VALUES_88")
+
+
+def real_const(name):
+    return getattr(SRC.module("urwid/display/common.py").real, name)
+
+
+def _table_fns(name):
+    k = 3 if name in RGB_TABLES else 1
+    return [z3.Function(f"{name}${c}", z3.IntSort(), z3.IntSort()) for c in range(k)]
+
+
+def _table_axioms(st, name):
+    done = st.ghost.setdefault("c18_tables", set())
+    if name in done:
+        return
+    done.add(name)
+    data = real_const(name)
+    fns = _table_fns(name)
+    facts = []
+    for i, row in enumerate(data):
+        row = row if name in RGB_TABLES else (row,)
+        facts.extend(f(z3.IntVal(i)) == z3.IntVal(int(x)) for f, x in zip(fns, row))
+    saved, st.capture = st.capture, None
+    try:
+        st.assume(z3.And(*facts))
+    finally:
+        st.capture = saved
+
+
+def T(name, i):
+    """Entry i of the real module's table `name` (spec side): an int, or an (r, g, b) triple."""
+    data = real_const(name)
+    if _isint(i):
+        if 0 <= i < len(data):
+            return data[i]
+        return (0, 0, 0) if name in RGB_TABLES else 0  # outside the table: a placeholder (only under a false guard)
+    _table_axioms(cur(), name)
+    vals = [mk_int(f(V._z(i))) for f in _table_fns(name)]
+    return tuple(vals) if name in RGB_TABLES else vals[0]
+
+
+def tlen(name):
+    return len(real_const(name))
+
+
+def tables_setup(st, self_obj, vals):
+    """Program side: the same tables as sequences whose symbolic subscripts are those function terms."""
+    g = st.ghost.setdefault("globals", {})
+    for name in INT_TABLES + RGB_TABLES:
+        data = real_const(name)
+        seq = Q.SSeq(len(data), (lambda i, name=name: T(name, i)), None, None, name)
+        g[name] = Q.LRef(seq) if isinstance(data, list) else seq
+
+
+# ---------------------------------------------------------------------------------------------------------------
+# Spec vocabulary for the colour descriptions
+# ---------------------------------------------------------------------------------------------------------------
+H, HASH, G = ord("h"), ord("#"), ord("g")
+
+
+class Pal:
+    """The two palettes: cube side, gray-ramp length and the names of the module's tables."""
+
+    def __init__(self, tag, colours, cube, grays):
+        self.tag, self.colours, self.cube, self.grays = tag, colours, cube, grays
+        self.gray_start = 16 + cube**3
+        self.white = self.gray_start - 1
+        self.lookup16 = f"_CUBE_{tag}_LOOKUP_16"
+        self.gray_lookup = f"_GRAY_{tag}_LOOKUP"
+        self.gray_lookup101 = f"_GRAY_{tag}_LOOKUP_101"
+        self.steps = f"_CUBE_STEPS_{tag}"
+        self.gray_steps = f"_GRAY_STEPS_{tag}"
+        self.steps16 = f"_CUBE_STEPS_{tag}_16"
+        self.gray_steps101 = f"_GRAY_STEPS_{tag}_101"
+        self.values = f"_COLOR_VALUES_{tag}"
+
+
+P256 = Pal("256", 256, 6, 24)
+P88 = Pal("88", 88, 4, 8)
+
+
+def digits_at(s, start, base, maxdigits):
+    """(wellformed, value): s[start:] is 1..maxdigits ASCII digits of the base, to the end of s; their value."""
+    n = cs_len(s)
+    k = n - start
+    wf = both(k >= 1, k <= maxdigits, *[implies(start + i < n, is_digit(cs_at(s, start + i), base)) for i in range(maxdigits)])
+    value = 0
+    for m in range(maxdigits, 0, -1):
+        value = ite(k == m, digits_value([cs_at(s, start + i) for i in range(m)], base), value)
+    return wf, value
+
+
+def dec_str(v, maxdigits=3):
+    """The decimal numeral of 0 <= v < 10**maxdigits as a modelled str."""
+    n = maxdigits
+    for m in range(maxdigits - 1, 0, -1):
+        n = ite(v < 10**m, m, n)
+
+    def at(j):
+        r = 0
+        for m in range(1, maxdigits + 1):
+            digs = [48 + (v // 10 ** (m - 1 - i)) % 10 for i in range(m)] + [0] * (maxdigits - m)
+            r = ite(n == m, _pick(digs, j), r)
+        return r
+
+    return CStr(n, at)
+
+
+def cube_coords(p, num):
+    """(r, g, b) cube coordinates of the colour number num of the palette's cube."""
+    c = num - 16
+    return c // (p.cube * p.cube), (c // p.cube) % p.cube, c % p.cube
+
+
+def cube_number(p, r, g, b):
+    return 16 + (r * p.cube + g) * p.cube + b
+
+
+def gray_number(p, k):
+    """Colour number of entry k of [black, *gray ramp, white] (black and white are the cube's)."""
+    return ite(k == 0, 16, ite(k == p.grays + 1, p.white, p.gray_start + k - 1))
+
+
+def gray_ext(p, i):
+    """Entry i of the list the gray lookup tables are built from: [0, *_GRAY_STEPS, 255]."""
+    return ite(i <= 0, 0, ite(i >= p.grays + 1, 255, T(p.gray_steps, i - 1)))
+
+
+def int_scale_spec(v, val_range, out_range):
+    """v on the scale 0..val_range-1 rescaled to 0..out_range-1, rounded half up (what util.int_scale computes)."""
+    return (2 * v * (out_range - 1) + (val_range - 1)) // (2 * (val_range - 1))
+
+
+def nearest(value_at, size, v, idx):
+    """idx is the index of an entry nearest to v among value_at(0..size-1) (ascending); a tie goes to the upper
+    neighbour — the rule _value_lookup_table implements (its own contract: `each-entry-is-the-nearest-value`)."""
+    return both(0 <= idx, idx < size,
+                implies(idx > 0, 2 * v >= value_at(idx - 1) + value_at(idx)),
+                implies(idx < size - 1, 2 * v < value_at(idx) + value_at(idx + 1)))
+
+
+def desc_spec_clauses(p, num, result):
+    """What _color_desc_<p>(num) is, region by region (shared by the 256- and 88-colour describers)."""
+    r, g, b = cube_coords(p, num)
+    yield "returns-only-for-a-colour-number-of-the-palette", both(0 <= num, num < p.colours)
+    yield "basic-colours-are-h-and-the-decimal-number", implies(num < 16, cs_eq(result, cs_concat(CStr.of("h"), dec_str(num, 2)), 4))
+    cube = CStr.codes([HASH, digit_char(T(p.steps16, r)), digit_char(T(p.steps16, g)), digit_char(T(p.steps16, b))])
+    yield "cube-colours-are-hash-and-the-three-step-digits", implies(both(16 <= num, num < p.gray_start), cs_eq(result, cube, 4))
+    gray = cs_concat(CStr.of("g"), dec_str(T(p.gray_steps101, num - p.gray_start), 3))
+    yield "grays-are-g-and-the-percentage", implies(num >= p.gray_start, cs_eq(result, gray, 4))
+
+
+@contract(DC + "_color_desc_256", property="C18", replayable=False)
+class color_desc_256:
+    params = dict(num=Int)
+    result = Str(4)
+    raises = (ValueError,)
+    raises_iff = {ValueError: lambda a: neg(both(0 <= a.num, a.num < 256))}
+    setup = staticmethod(tables_setup)
+    fstring = staticmethod(cstr_fstring)
+
+    def ensures(a, result):
+        yield from desc_spec_clauses(P256, a.num, result)
+        if not cur().ghost.get("c18_no_roundtrip"):
+            back = parse_color_256.spec_value(None, desc=result)
+            yield "the-description-parses-back-to-the-number", opt_eq(back, a.num)
+
+    def ensures_callee(a, result):
+        yield from desc_spec_clauses(P256, a.num, result)
+
+    def on_raise(a, exc):
+        yield "raises-only-outside-the-palette", neg(both(0 <= a.num, a.num < 256))
+
+
+@contract(DC + "_color_desc_88", property="C18", replayable=False)
+class color_desc_88:
+    params = dict(num=Int)
+    result = Str(4)
+    raises = (ValueError,)
+    raises_iff = {ValueError: lambda a: neg(both(0 <= a.num, a.num < 88))}
+    setup = staticmethod(tables_setup)
+    fstring = staticmethod(cstr_fstring)
+
+    def ensures(a, result):
+        yield from desc_spec_clauses(P88, a.num, result)
+        back = parse_color_88.spec_value(None, desc=result)
+        yield "the-description-parses-back-to-the-number", opt_eq(back, a.num)
+
+    def ensures_callee(a, result):
+        yield from desc_spec_clauses(P88, a.num, result)
+
+    def on_raise(a, exc):
+        yield "raises-only-outside-the-palette", neg(both(0 <= a.num, a.num < 88))
+
+
+def hex_all(s):
+    n = cs_len(s)
+    if _isint(n):
+        return both(True, *[is_hex(cs_at(s, i)) for i in range(n)])
+    return forall(0, n, lambda j: is_hex(s.at(j)))
+
+
+def _is_hex_spec(a):
+    st = cur()
+    s = a.text
+    if isinstance(s, CStr) and not _isint(s.n) and not st.ghost.get("c18_verifying_is_hex"):
+        k = cs_concrete_len(st, s, 8)  # call sites: split over the short lengths, so the answer is quantifier-free there
+        if k is not None:
+            s = CStr.codes([s.at(i) for i in range(k)])
+    return hex_all(s)
+
+
+def _is_hex_setup(st, self_obj, vals):
+    st.ghost["c18_verifying_is_hex"] = True
+
+
+@contract(DC + "_is_hex", property="C18", replayable=False)
+class is_hex_text:
+    params = dict(text=Str())
+    result = Bool
+    raises = ()
+    setup = staticmethod(_is_hex_setup)
+    pure_spec = staticmethod(_is_hex_spec)
+
+    def ensures(a, result):
+        yield "true-exactly-for-ascii-hex-digits-only", result == hex_all(a.text)
+
+
+def opt_parts(x):
+    """(is-none formula, value) of an optional int; the value is 0 where it is None (never forks)."""
+    if x is None:
+        return True, 0
+    return opt_isnone(x), val(x)
+
+
+def parse_spec_clauses(p, s, result):
+    """What _parse_color_<p>(s) returns for a description s of at most four characters' relevance."""
+    n = cs_len(s)
+    none, rv = opt_parts(result)
+    c0 = cs_at(s, 0)
+    yield "a-colour-number-of-the-palette-or-none", either(none, both(0 <= rv, rv < p.colours))
+    yield "longer-than-four-characters-is-rejected", implies(n > 4, none)
+    yield "other-first-characters-are-rejected", implies(both(n <= 4, either(n == 0, both(c0 != H, c0 != HASH, c0 != G))), none)
+    # 'hN'
+    hwf, hv = digits_at(s, 1, 10, 3)
+    yield "hN-is-colour-number-N-when-in-the-palette", implies(both(n <= 4, c0 == H, hwf), ite(hv < p.colours, both(neg(none), rv == hv), none))
+    # '#rgb'
+    d = [cs_at(s, i) for i in (1, 2, 3)]
+    cube = both(n == 4, c0 == HASH, *[is_hex(x) for x in d])
+    idx = [T(p.lookup16, digit_val(x, 16)) for x in d]
+    yield "hash-rgb-is-the-cube-colour-of-the-three-looked-up-steps", implies(cube, both(neg(none), rv == cube_number(p, *idx), 16 <= rv, rv < p.gray_start))
+    yield "each-cube-step-is-a-nearest-step-of-the-xterm-table", implies(cube, both(*[nearest(lambda i: T(p.steps, i), p.cube, int_scale_spec(digit_val(x, 16), 16, 256), k) for x, k in zip(d, idx)]))
+    yield "exact-step-values-are-preserved", implies(cube, both(*[implies(int_scale_spec(digit_val(x, 16), 16, 256) == T(p.steps, j), k == j) for x, k in zip(d, idx) for j in range(p.cube)]))
+    yield "hash-without-exactly-three-hex-digits-is-rejected", implies(both(n >= 1, n <= 4, c0 == HASH, neg(cube)), none)
+    # 'g#XX'
+    xwf, xv = digits_at(s, 2, 16, 2)
+    ghex = both(n <= 4, n >= 2, c0 == G, cs_at(s, 1) == HASH, xwf)
+    kx = T(p.gray_lookup, xv)
+    yield "g-hash-XX-is-the-gray-nearest-to-XX", implies(ghex, both(neg(none), rv == gray_number(p, kx), nearest(lambda i: gray_ext(p, i), p.grays + 2, xv, kx)))
+    # 'gN'
+    gwf, gv = digits_at(s, 1, 10, 3)
+    gdec = both(n <= 4, c0 == G, gwf)
+    kg = T(p.gray_lookup101, imin(gv, 100))
+    yield "gN-is-the-gray-nearest-to-N-percent", implies(both(gdec, gv <= 100), both(neg(none), rv == gray_number(p, kg), nearest(lambda i: gray_ext(p, i), p.grays + 2, int_scale_spec(gv, 101, 256), kg)))
+    yield "more-than-100-percent-is-rejected", implies(both(gdec, gv > 100), none)
+
+
+@contract(DC + "_parse_color_256", property="C18", replayable=False)
+class parse_color_256:
+    params = dict(desc=Str())
+    result = Opt(Int)
+    raises = ()
+    setup = staticmethod(tables_setup)
+
+    def ensures(a, result):
+        yield from parse_spec_clauses(P256, a.desc, result)
